@@ -259,7 +259,11 @@ type reifyCase struct {
 func runReify(c *reifyCase) (o reifyObs) {
 	var tag string
 	if len(c.Vs) > 0 {
-		tag = fmt.Sprintf(` validate:"%s"`, rVTag[c.Vs[0]])
+		var vs []string
+		for _, v := range c.Vs {
+			vs = append(vs, rVTag[v])
+		}
+		tag = fmt.Sprintf(` validate:"%s"`, strings.Join(vs, ","))
 	}
 	ft := rTypeOf(c.Ty, c.IV)
 	st := reflect.StructOf([]reflect.StructField{
